@@ -333,6 +333,9 @@ def shrink(harness, suite, div, scratch, budget=60):
 # known findings
 # ---------------------------------------------------------------------------------------------
 
+TIMING_SUITES = {"cluster", "halt", "lease", "proxy", "api", "backup"}
+
+
 def load_known(prop):
     p = os.path.join(VERIF, "known_findings.jsonl")
     out = []
@@ -364,7 +367,7 @@ def matches_known(known, suite_name, div):
             continue
         if sig.get("obs_regex") and not re.search(sig["obs_regex"], obs, re.M):
             continue
-        at = div.get("at", 0)
+        at = div.get("at") or 0
         if sig.get("line_regex") and not (at < len(div["ops"]) and re.search(sig["line_regex"], div["ops"][at])):
             continue
         if sig.get("fail_regex") and not (at < len(div.get("other") or []) and re.search(sig["fail_regex"], div["other"][at])):
@@ -503,7 +506,17 @@ def _main(prop, cfg, tier, seed, args, scratch, t0):
             else:
                 broken.append(("correspondence", "[%s] model and implementation disagree" % suite["name"], res.model_div))
         for of in res.oracle_failures:
-            fake = dict(ops=of.get("ops") or [of.get("what", "")], impl=[of.get("what", "")], kind="oracle", at=0, other=[])
+            case_ops = of.get("ops")
+            if not case_ops and of.get("case") is not None and getattr(res, "ops_lines", None):
+                # the operations of the case the harness oracle complained about
+                starts = [i for i, l in enumerate(res.ops_lines) if l.startswith("case ")]
+                idx = [i for i in starts if res.ops_lines[i].strip() == "case %s" % of["case"]]
+                if idx:
+                    s0 = idx[0]
+                    e0 = min([i for i in starts if i > s0] + [len(res.ops_lines)])
+                    case_ops = res.ops_lines[s0:e0]
+            fake = dict(ops=case_ops or [of.get("what", "")], impl=[of.get("what", "")], kind="oracle", at=None, other=[],
+                        replayable=bool(case_ops))
             k = matches_known(known, suite["name"], fake)
             if k is not None:
                 known_hits[k["id"]] = k
@@ -563,6 +576,55 @@ def _main(prop, cfg, tier, seed, args, scratch, t0):
                     exhaustive = exhaustive and bool(st.get("exhaustive"))
                     handle(suite, res, "seed=%d" % sd)
 
+    # ---- suites that run real goroutines, HTTP and timers: a failure must reproduce ------------------
+    # These suites wait for asynchronous effects (replication, lease loops, time-outs) with bounded
+    # real-time waits; under heavy parallel load a wait can lapse although the code is right.  A
+    # failure found by a generated run is therefore replayed on its own (same operations, same
+    # harness, nothing else running in this check): it counts only if it shows again.  Failures that
+    # do not are listed in the evidence (`unconfirmed`), never silently dropped.
+    unconfirmed = []
+    if harness is not None and not args.replay:
+        def reproduces(suite, ops, kind):
+            p = os.path.join(scratch, "confirm-%d.txt" % len(unconfirmed))
+            with open(p, "w") as f:
+                f.write("\n".join(ops) + "\n")
+            for attempt in range(2):
+                r = run_suite(harness, suite, 0, "quick", os.path.join(scratch, "confirm%d" % attempt), replay=p)
+                if kind == "model":
+                    if r.model_div is not None or r.errors:
+                        return True
+                elif r.spec_fails or r.spec_div is not None or r.oracle_failures:
+                    return True
+            return False
+        kept = []
+        for v in violations:
+            suite = next(s for s in suites if s["name"] == v["suite"])
+            if suite["name"] in TIMING_SUITES and str(v.get("label", "")).startswith("seed=") and v["div"].get("ops") and v["div"].get("replayable", True):
+                if reproduces(suite, v["div"]["ops"], v["div"].get("kind")):
+                    kept.append(v)
+                else:
+                    at = v["div"].get("at")
+                    why = (v["div"].get("other") or [""])[at] if at is not None and at < len(v["div"].get("other") or []) else (v.get("oracle") or {}).get("what", "")
+                    unconfirmed.append("[%s] %s: %s" % (suite["name"], v["label"], str(why)[:300]))
+            else:
+                kept.append(v)
+        violations[:] = kept
+        keptb = []
+        for b in broken:
+            if len(b) > 2 and b[0] == "correspondence":
+                sname = b[1].split("]")[0].strip("[")
+                suite = next((s for s in suites if s["name"] == sname), None)
+                if suite is not None and sname in TIMING_SUITES and b[2].get("ops"):
+                    if reproduces(suite, b[2]["ops"], "model"):
+                        keptb.append(b)
+                    else:
+                        unconfirmed.append("[%s] model/implementation difference not reproduced on replay (line %s of its case)" % (sname, b[2].get("at")))
+                    continue
+            keptb.append(b)
+        broken[:] = keptb
+        for u in unconfirmed:
+            notes.append("unconfirmed (did not reproduce in two replays of the case, timing under load): " + u)
+
     # ---- tie broken but no concrete failing input yet: widen the search (spec on implementation only) ----
     if broken and not violations and harness is not None and not args.replay:
         for suite in suites:
@@ -603,8 +665,11 @@ def _main(prop, cfg, tier, seed, args, scratch, t0):
                 ops = shrink(harness, suite, div, scratch)
             except Exception as e:
                 notes.append("shrink failed: %s" % e)
+        at = div.get("at") or 0
+        lo = max(0, at - 45)
         payload = dict(suite=v["suite"], found_by=v["label"], failing_predicate=cfg.get("predicate", "Lean Spec on implementation output"),
-                       at_line=div.get("at"), impl=div.get("impl", [])[:50], expected=div.get("other", [])[:50],
+                       at_line=div.get("at"), window_from_line=lo,
+                       impl=div.get("impl", [])[lo:at + 5], expected=div.get("other", [])[lo:at + 5],
                        broken_obligations=[b[1][:300] for b in broken][:6], ops=ops)
         if v.get("oracle"):
             payload["oracle"] = json.dumps(v["oracle"])[:2000]
@@ -620,8 +685,10 @@ def _main(prop, cfg, tier, seed, args, scratch, t0):
                 d = b[2]
                 payload["suite"] = b[1].split("]")[0].strip("[")
                 payload["at_line"] = d["at"]
-                payload["impl"] = d["impl"][:50]
-                payload["model"] = d["other"][:50]
+                lo = max(0, (d["at"] or 0) - 45)
+                payload["window_from_line"] = lo
+                payload["impl"] = d["impl"][lo:(d["at"] or 0) + 5]
+                payload["model"] = d["other"][lo:(d["at"] or 0) + 5]
                 payload["ops"] = d["ops"]
                 break
         p = write_replay(prop, "broken", payload)
